@@ -122,6 +122,11 @@ def run(chk, prog, tier):
                 noib.append(tab.mnemonic(r))
     REL8.rel8_rule(chk, prog, short_rows_without_ib=noib)
     branch_no_extra_byte_rule(chk, prog)
+    # the row selection must not happen inside the encoder, which runs again after padding (chunk fitting)
+    from valib import pipeline as PL
+    PL.encoder_idempotence_rule(chk, prog, PL.Roles(prog))
+    ns = TR.signcmp_rule(chk, tab, prog)
+    chk.floor("ordering comparisons on table columns", ns, 1)
     chk.floor("branch rows", sum(1 for r in tab.rows[3:-1] if branch(r)), 43)
     chk.floor("branch rows matched against the reference", matched, 43)
     chk.floor("successor obligations", n, 19)
@@ -132,4 +137,4 @@ def run(chk, prog, tier):
         "mnemonic (or an exact duplicate where no short form exists). Increment sites and their guards are "
         "enumerated from the AST. The short/long decision is covered by a value-set analysis (REL8): the set of displacement "
         "values for which the short flag reaches the key increment is computed path-sensitively and must lie inside the "
-        "rel8-representable values, and `long` must exclude it. (CFPAD) the zero-byte predicate of the immediate emitter is false for CONTROL_FLOW. NOT decided: displacement emission in full.")
+        "rel8-representable values, and `long` must exclude it. (IDEM) the encoder, which runs twice on a line that is padded, stores nothing into the record that a second run would change (the key increment stays in the line parser). (SIGNCMP) ordering tests on table columns keep the signedness the NA cells were written for. (CFPAD) the zero-byte predicate of the immediate emitter is false for CONTROL_FLOW. NOT decided: displacement emission in full.")
